@@ -132,6 +132,30 @@ MUTANTS = [
 # ---------------------------------------------------------------------------------------------
 # Neutral changes: behaviour-preserving edits a maintainer might make.  Every property still holds,
 # so EVERY check must stay silent (exit 0) on them:  python3 selftest/run.py --neutral
+# ---------------------------------------------------------------------- counters kept in static memory (outside every object)
+MUTANTS += [
+    ("C04", "static-u16-event-count-drops-the-wrapping-event", [
+        (LIB, "    pub fn process_keyevent(&mut self, ev: KeyEvent) -> Option<DecodedKey> {\n        match ev {",
+         "    pub fn process_keyevent(&mut self, ev: KeyEvent) -> Option<DecodedKey> {\n        static EVENTS: core::sync::atomic::AtomicU16 = core::sync::atomic::AtomicU16::new(0);\n        if EVENTS.fetch_add(1, core::sync::atomic::Ordering::Relaxed) == u16::MAX {\n            // statistics overflowed: start a new sampling window\n            return None;\n        }\n        match ev {"),
+    ]),
+    ("C14", "static-u32-event-count-drops-the-wrapping-event", [
+        (LIB, "    pub fn process_keyevent(&mut self, ev: KeyEvent) -> Option<DecodedKey> {\n        match ev {",
+         "    pub fn process_keyevent(&mut self, ev: KeyEvent) -> Option<DecodedKey> {\n        static EVENTS: core::sync::atomic::AtomicU32 = core::sync::atomic::AtomicU32::new(0);\n        if EVENTS.fetch_add(1, core::sync::atomic::Ordering::Relaxed) == u32::MAX {\n            // statistics overflowed: start a new sampling window\n            return None;\n        }\n        match ev {"),
+    ]),
+    ("C08", "static-u16-frame-count-checked-add", [
+        (LIB, "            let word = self.register;\n            self.register = 0;\n            self.num_bits = 0;",
+         "            let word = self.register;\n            self.register = 0;\n            self.num_bits = 0;\n            static FRAMES: core::sync::atomic::AtomicU16 = core::sync::atomic::AtomicU16::new(0);\n            let n = FRAMES.load(core::sync::atomic::Ordering::Relaxed);\n            FRAMES.store(n.checked_add(1).expect(\"frame statistics overflow\"), core::sync::atomic::Ordering::Relaxed);"),
+    ]),
+    ("C06", "static-u32-bit-count-resyncs-at-wrap", [
+        (LIB, "    pub fn add_bit(&mut self, bit: bool) -> Result<Option<u8>, Error> {\n        self.register |= (bit as u16) << self.num_bits;",
+         "    pub fn add_bit(&mut self, bit: bool) -> Result<Option<u8>, Error> {\n        static BITS: core::sync::atomic::AtomicU32 = core::sync::atomic::AtomicU32::new(0);\n        if BITS.fetch_add(1, core::sync::atomic::Ordering::Relaxed) == u32::MAX {\n            // the line statistics wrapped: take the opportunity to resynchronise\n            self.register = 0;\n            self.num_bits = 0;\n        }\n        self.register |= (bit as u16) << self.num_bits;"),
+    ]),
+    ("C17", "static-u16-lookup-count-passes-the-wrapping-lookup-through", [
+        (L + "mod.rs", "impl super::KeyboardLayout for AnyLayout {\n    fn map_keycode(\n        &self,\n        keycode: super::KeyCode,\n        modifiers: &super::Modifiers,\n        handle_ctrl: super::HandleControl,\n    ) -> super::DecodedKey {\n        match self {",
+         "impl super::KeyboardLayout for AnyLayout {\n    fn map_keycode(\n        &self,\n        keycode: super::KeyCode,\n        modifiers: &super::Modifiers,\n        handle_ctrl: super::HandleControl,\n    ) -> super::DecodedKey {\n        static LOOKUPS: core::sync::atomic::AtomicU16 = core::sync::atomic::AtomicU16::new(0);\n        if LOOKUPS.fetch_add(1, core::sync::atomic::Ordering::Relaxed) == u16::MAX {\n            return super::DecodedKey::RawKey(keycode);\n        }\n        match self {"),
+    ]),
+]
+
 NEUTRAL = [
     ("N01", "ps2-frames-seen-counter", [
         (LIB, "pub struct Ps2Decoder {\n    register: u16,\n    num_bits: u8,\n}", "pub struct Ps2Decoder {\n    register: u16,\n    num_bits: u8,\n    frames_seen: u32,\n}"),
@@ -210,5 +234,14 @@ NEUTRAL += [
     ]),
     ("N15", "generic-layout-adapter-that-is-correct", [
         (L + "mod.rs", "impl super::KeyboardLayout for &AnyLayout {", "/// A layout seen through a reference-counting-free adapter (passes everything through).\npub struct Through<L>(pub L);\n\nimpl<L> super::KeyboardLayout for Through<L>\nwhere\n    L: super::KeyboardLayout,\n{\n    fn map_keycode(\n        &self,\n        keycode: super::KeyCode,\n        modifiers: &super::Modifiers,\n        handle_ctrl: super::HandleControl,\n    ) -> super::DecodedKey {\n        self.0.map_keycode(keycode, modifiers, handle_ctrl)\n    }\n}\n\nimpl super::KeyboardLayout for &AnyLayout {"),
+    ]),
+]
+
+NEUTRAL += [
+    ("N16", "harmless-static-counters-in-every-stage", [
+        (S1, "    fn advance_state(&mut self, code: u8) -> Result<Option<KeyEvent>, Error> {\n        match self.state {", "    fn advance_state(&mut self, code: u8) -> Result<Option<KeyEvent>, Error> {\n        static SEEN: core::sync::atomic::AtomicU8 = core::sync::atomic::AtomicU8::new(0);\n        SEEN.fetch_add(1, core::sync::atomic::Ordering::Relaxed);\n        match self.state {"),
+        (S2, "    fn advance_state(&mut self, code: u8) -> Result<Option<KeyEvent>, Error> {\n        match self.state {", "    fn advance_state(&mut self, code: u8) -> Result<Option<KeyEvent>, Error> {\n        static SEEN: core::sync::atomic::AtomicU32 = core::sync::atomic::AtomicU32::new(0);\n        SEEN.fetch_add(1, core::sync::atomic::Ordering::Relaxed);\n        match self.state {"),
+        (LIB, "    pub fn add_bit(&mut self, bit: bool) -> Result<Option<u8>, Error> {\n        self.register |= (bit as u16) << self.num_bits;", "    pub fn add_bit(&mut self, bit: bool) -> Result<Option<u8>, Error> {\n        static BITS: core::sync::atomic::AtomicU16 = core::sync::atomic::AtomicU16::new(0);\n        static ONES: core::sync::atomic::AtomicU64 = core::sync::atomic::AtomicU64::new(0);\n        BITS.fetch_add(1, core::sync::atomic::Ordering::Relaxed);\n        if bit {\n            ONES.fetch_add(1, core::sync::atomic::Ordering::Relaxed);\n        }\n        self.register |= (bit as u16) << self.num_bits;"),
+        (LIB, "    pub fn process_keyevent(&mut self, ev: KeyEvent) -> Option<DecodedKey> {\n        match ev {", "    pub fn process_keyevent(&mut self, ev: KeyEvent) -> Option<DecodedKey> {\n        static PRESSES: core::sync::atomic::AtomicU16 = core::sync::atomic::AtomicU16::new(0);\n        if ev.state == KeyState::Down {\n            PRESSES.fetch_add(1, core::sync::atomic::Ordering::Relaxed);\n        }\n        match ev {"),
     ]),
 ]
